@@ -18,7 +18,6 @@ import (
 	"net/netip"
 	"os"
 	"testing"
-	"time"
 
 	"github.com/DataDog/datadog-traceroute/packets"
 	"golang.org/x/sys/unix"
@@ -124,8 +123,8 @@ func c12SourceStream(t *testing.T, rep *hx.Report, rng *hx.RNG, n int) {
 			got := "dropped"
 			var payload []byte
 			if queued {
-				src.SetReadDeadline(time.Now().Add(2 * time.Millisecond))
-				m, rerr := src.Read(buf)
+				var m int
+				rerr := readRobust(src, fds[1], func() (e error) { m, e = src.Read(buf); return })
 				switch {
 				case rerr == nil:
 					got, payload = "delivered", append([]byte(nil), buf[:m]...)
